@@ -247,7 +247,7 @@ func chunkings(n int, rng *rand.Rand, exhaustive bool) []ReaderScript {
 	return out
 }
 
-var rawInputs = []string{"a\rb", "x\r\ny\r", "plain text only", "tab\there  and   spaces", "nul\x00byte", "caf\xc3\xa9 \xff\xfe", "\r", "1 < 2", "a\r<b>c\r\n</b>", "AT&T", "q\"uote'"}
+var rawInputs = []string{"<b>x</b>" + strings.Repeat("y", 5000) + "<b>z</b>", "<b title=\"" + strings.Repeat("t", 4500) + "\">q</b>w", "a\rb", "x\r\ny\r", "plain text only", "tab\there  and   spaces", "nul\x00byte", "caf\xc3\xa9 \xff\xfe", "\r", "1 < 2", "a\r<b>c\r\n</b>", "AT&T", "q\"uote'"}
 
 // checkAgreement: C15 on one (policy, input).
 func checkAgreement(res *RunResult, recipe Recipe, model *AP, real *bm.Policy, input []byte, rng *rand.Rand, exhaustive bool, seen map[string]bool) {
@@ -278,6 +278,13 @@ func checkAgreement(res *RunResult, recipe Recipe, model *AP, real *bm.Policy, i
 		}
 		if sb.InputChanged {
 			res.addViolation(Finding{"C15", "input-modified", fmt.Sprintf("SanitizeBytes modified the caller's buffer for input %q", input)}, x, seen)
+		}
+		// a result handed to the caller stays what it was, whatever is sanitised afterwards
+		held := real.SanitizeBytes(append([]byte{}, input...))
+		real.SanitizeBytes([]byte("<p>another, longer document that is sanitised after the first one &amp; more</p><i>x</i>"))
+		real.Sanitize("and <b>one</b> more")
+		if !bytes.Equal(held, ref.Out) {
+			res.addViolation(Finding{"C15", "result-overwritten", fmt.Sprintf("the slice returned by SanitizeBytes(%q) changed after later calls: now %q, was %q", input, held, ref.Out)}, x, seen)
 		}
 	}
 	for _, rs := range chunkings(len(input), rng, exhaustive) {
@@ -333,10 +340,12 @@ func checkReadFaults(res *RunResult, recipe Recipe, model *AP, real *bm.Policy, 
 	for i, off := range offsets {
 		for _, one := range []bool{false, true} {
 			rs := ReaderScript{FailAt: off, OneByte: one, ErrKind: i}
-			r := RunIO(real, "SanitizeReaderToWriter", input, rs, WriterScript{Kind: "string"})
-			res.Execs++
-			if r.Err == nil {
-				res.addViolation(Finding{"C16", "read-error-lost", fmt.Sprintf("source fails at byte %d of %q but SanitizeReaderToWriter returned nil", off, input)}, x, seen)
+			for _, kind := range []string{"string", "plain"} {
+				r := RunIO(real, "SanitizeReaderToWriter", input, rs, WriterScript{Kind: kind})
+				res.Execs++
+				if r.Err == nil {
+					res.addViolation(Finding{"C16", "read-error-lost", fmt.Sprintf("source fails at byte %d of %q but SanitizeReaderToWriter (%s writer) returned nil", off, input, kind)}, x, seen)
+				}
 			}
 			b := RunIO(real, "SanitizeReader", input, rs, WriterScript{})
 			res.Execs++
@@ -468,7 +477,9 @@ func cmdReplayIO(args []string) int {
 					checkWriteFaults(res, recipe, p.model, p.real, input, seen)
 					offs := []int{}
 					for o := 0; o <= len(input); o++ {
-						offs = append(offs, o)
+						if len(input) <= 96 || o < 48 || o > len(input)-8 || o%97 == 0 {
+							offs = append(offs, o)
+						}
 					}
 					checkReadFaults(res, recipe, p.model, p.real, input, offs, seen)
 				}
@@ -552,6 +563,8 @@ func cmdCLICheck(args []string) int {
 			_, b := GenDoc(rng, model, []int{0, 1, 3, 4, 5, 6, 7, 8}[rng.Intn(8)])
 			inputs = append(inputs, b)
 		}
+		// a large document (more than a mebibyte on stdin)
+		inputs = append(inputs, []byte(strings.Repeat("<p>paragraph <b>bold</b> &amp; text</p>\n", 32000)+"<i>the end</i>"))
 		for _, in := range inputs {
 			cmd := exec.Command(bin)
 			cmd.Stdin = bytes.NewReader(in)
